@@ -28,6 +28,9 @@ class Shadow:
     def __init__(self, rng: random.Random):
         self.rng = rng
         self.cancel_bias = 0.0
+        # targeted scenarios (act_special): probability per act() step and relative weights; a property check raises what it is about
+        self.special = 0.08
+        self.weights = {'late-unschedule': 1.0, 'orphan': 1.0, 'unschedule-orphan': 2.0, 'late-resources': 1.5, 'jp-cancel-path': 1.0}
         self.ops: List[str] = []
         self.tags: List[str] = []
         self.date = 0
@@ -203,6 +206,8 @@ class Shadow:
 
     def finish(self, b, j, state):
         J = self.jobs[(b, j)]
+        if J['attempt'] is not None:
+            J['last'] = (J['attempt'], J['inst'])
         J['state'] = state
         for (bb, c), C in self.jobs.items():
             if bb == b and j in C['parents'] and C['inserted']:
@@ -210,12 +215,102 @@ class Shadow:
                 if C['state'] == 'Pending' and C['done_parents'] >= len(C['parents']):
                     C['state'] = 'Ready'       # (also for jobs of uncommitted updates: that is what the real code does)
 
+    def act_special(self) -> bool:
+        """one targeted scenario (all of them arise in the real system through message races):
+        late-unschedule    the canceller selected a Running job, the job completed, then the CALL unschedule_job for that (ended) attempt arrives
+        orphan             a second attempt id of a Running job shows up on another instance (schedule_job posted the job to a worker, the
+                           procedure call failed / was repeated): `started` (or `schedule`, then maybe `started`) with a fresh attempt id
+        unschedule-orphan  cancel_orphaned_attempts_loop_body unschedules such a recorded, started, non-current attempt
+        late-resources     resources of an attempt are registered after it already has billed time: job_started lost and job_complete
+                           first, or a heartbeat (billing update) before add_attempt_resources
+        jp-cancel-path     job-private path: pending instance -> creating -> the job's group is cancelled (a single cancelled ancestor) ->
+                           instance activates -> schedule_job for the Creating job"""
+        rng = self.rng
+        jobs = [(k, J) for k, J in self.jobs.items() if J['inserted']]
+        running = [(k, J) for k, J in jobs if J['state'] == 'Running' and J['attempt'] is not None]
+        cands = {}
+        done = [(k, J) for k, J in jobs if J['state'] in TERMINAL and J.get('last')]
+        if done:
+            cands['late-unschedule'] = done
+        if running:
+            cands['orphan'] = running
+        orph = [(k, J) for k, J in jobs if J.get('orphans')]
+        if orph:
+            cands['unschedule-orphan'] = orph
+        nores = [(k, J) for k, J in running if J.get('res') != J['attempt']]
+        if nores:
+            cands['late-resources'] = nores
+        jp = [(k, J) for k, J in jobs if J['state'] == 'Ready' and J['ic'] == 2 and not J['ar'] and self.scheduler_visible(k[0], J)
+              and not self.batches[k[0]]['cancelled'] and not self.batches[k[0]]['deleted']]
+        if jp:
+            cands['jp-cancel-path'] = jp
+        names = [n for n in cands if self.weights.get(n, 0) > 0]
+        if not names:
+            return False
+        name = rng.choices(names, [self.weights[n] for n in names])[0]
+        (b, j), J = rng.choice(cands[name])
+        ts = self.tick()
+        d = self.date
+        if name == 'late-unschedule':
+            a, inst = J['last']
+            self.emit(f'unschedule {b} {j} {a} {inst} {ts} cancelled {d}', 'unschedule:after-complete')
+        elif name == 'orphan':
+            others = [n for n, i in self.instances.items() if i['state'] == 'active' and i['pool'] == (J['ic'] != 2) and n != J['inst']]
+            inst = rng.choice(others) if others else (self.new_instance(J['ic'] != 2) if rng.random() < 0.7 else J['inst'])
+            a = self.next_att
+            self.next_att += 1
+            if rng.random() < 0.7:
+                self.emit(f'started {b} {j} {a} {inst} {ts} {d}', 'orphan:started', replayable=True)
+                J.setdefault('orphans', []).append((a, inst))
+            else:
+                self.emit(f'schedule {b} {j} {a} {inst}', 'orphan:schedule')
+                if rng.random() < 0.6:
+                    self.emit(f'started {b} {j} {a} {inst} {ts} {d}', 'orphan:started', replayable=True)
+                    J.setdefault('orphans', []).append((a, inst))
+        elif name == 'unschedule-orphan':
+            a, inst = J['orphans'].pop(rng.randrange(len(J['orphans'])))
+            self.emit(f'unschedule {b} {j} {a} {inst} {ts} cancelled {d}', 'unschedule:orphan', replayable=True)
+        elif name == 'late-resources':
+            a, inst = J['attempt'], J['inst']
+            res = rng.sample([1, 2, 3, 4], rng.randint(1, 3))
+            line = f'addResources {b} {j} {a} {d} ' + ' '.join(f'{x}:{rng.choice([1, 250, 1000, 3840])}' for x in res)
+            if rng.random() < 0.5:
+                # job_started was lost (or its resources were): job_complete carries start / end, the resources arrive afterwards
+                st = rng.choice(['Success', 'Success', 'Failed', 'Error'])
+                self.emit(f'complete {b} {j} {a} {inst} {st} {ts - rng.choice([5, 20, 50])} {ts} completed {d}', 'complete', replayable=True)
+                self.finish(b, j, st)
+            else:
+                self.emit(f'started {b} {j} {a} {inst} {ts - rng.choice([5, 20])} {d}', 'started', replayable=True)
+                self.emit(f'heartbeat {ts} {d} {b}:{j}:{a}', 'heartbeat', replayable=True)
+            self.emit(line, 'addResources:after-billed-time', replayable=True)
+            J['res'] = a
+        elif name == 'jp-cancel-path':
+            inst = self.new_instance(False, activate=False)
+            a = self.next_att
+            self.next_att += 1
+            self.emit(f'creating {b} {j} {a} {inst} {ts} {d}', 'creating')
+            J.update(state='Creating', attempt=a, inst=inst)
+            B = self.batches[b]
+            if rng.random() < 0.8:
+                g = rng.choice(self.ancestors(b, J['group']))
+                self.emit(f'cancel {b} {g}', 'cancel:while-creating')
+                if B['groups'][g]['update'] is None or B['updates'][B['groups'][g]['update'] - 1]['committed']:
+                    B['cancelled'].add(g)
+            self.instances[inst]['state'] = 'active'
+            self.emit(f'activate {inst}', 'activate')
+            self.emit(f'schedule {b} {j} {a} {inst}', 'schedule:creating-job')
+            if not self.job_cancelled(b, J):
+                J['state'] = 'Running'
+        return True
+
     def act(self):
         """one step of driver / worker / background activity"""
         rng = self.rng
         r = rng.random()
         if self.cancel_bias and rng.random() < self.cancel_bias:
             r = 0.65            # the cancellation branch (C07 / C39 want many cancels, also of nested groups in both orders)
+        if self.special and rng.random() < self.special and self.act_special():
+            return
         jobs = [(k, J) for k, J in self.jobs.items() if J['inserted']]
         # the driver only schedules what its SELECTs return: Ready jobs of running job groups of running batches.  That includes
         # (C41) Ready jobs of an update that is not committed yet when the batch / group is running because of another update
@@ -260,6 +355,7 @@ class Shadow:
                 res = rng.sample([1, 2, 3, 4], rng.randint(1, 3))
                 self.emit(f'addResources {b} {j} {a} {d} ' + ' '.join(f'{x}:{rng.choice([1, 250, 1000, 3840])}' for x in res), 'addResources',
                           replayable=True)
+                J['res'] = a
         elif r < 0.50 and running:
             (b, j), J = rng.choice(running)
             a, inst = J['attempt'], J['inst']
@@ -335,9 +431,14 @@ class Shadow:
             self.emit(rng.choice(self.sent), 'replay')           # an old message arrives (again)
 
 
-def history(rng: random.Random, max_updates: int = 3, cancel_bias: float = 0.0) -> Dict[str, Any]:
+def history(rng: random.Random, max_updates: int = 3, cancel_bias: float = 0.0, special: Optional[float] = None,
+            weights: Optional[Dict[str, float]] = None) -> Dict[str, Any]:
     s = Shadow(rng)
     s.cancel_bias = cancel_bias
+    if special is not None:
+        s.special = special
+    if weights:
+        s.weights.update(weights)
     b = s.create_batch()
     for _ in range(rng.choice([1, 1, 2])):
         s.new_instance(True)
